@@ -59,6 +59,10 @@ func (k Keeper) SendNftTransfer(
 		if err != nil {
 			return err
 		}
+	} else if strings.HasPrefix(class, CLASSPATHPREFIX) && strings.Contains(class, DELIMITER) {
+		// a native class whose id looks like a voucher class path (nft/{chain}/{chain}/{class}) would be
+		// taken for a voucher on its way back and could release another asset's escrow
+		return errorsmod.Wrapf(types.ErrInvalidDenom, "native class %s has the form of a class path", class)
 	}
 
 	labels := []metrics.Label{
